@@ -558,7 +558,12 @@ def rule_visit_stateless(run):
     _r.run_memo_rule(run, "F-VISIT.memo")   # every traversal (driver check, sensitivity, definite assignment) sees the whole statement
 
 
-RULES = [rule_reserved, rule_vocabulary, rule_names, rule_templates, rule_choices, rule_sensitivity, rule_buffers, rule_castmatrix, rule_concat_cast, rule_visit_unconditional, rule_shadow, rule_hint_position, rule_sensitivity_merge, rule_interface_names, rule_refspec, rule_lexical, rule_visit_stateless]
+def rule_port_widths(run):
+    from . import c12
+    c12.rule_port_widths(run)    # port associations have matching widths
+
+
+RULES = [rule_reserved, rule_vocabulary, rule_names, rule_templates, rule_choices, rule_sensitivity, rule_buffers, rule_castmatrix, rule_concat_cast, rule_visit_unconditional, rule_shadow, rule_hint_position, rule_sensitivity_merge, rule_interface_names, rule_refspec, rule_lexical, rule_visit_stateless, rule_port_widths]
 LEVEL = "other"
 EXPLANATION = (
     "Legality clauses that are properties of the back end's own tables and templates, decided for all designs: the "
